@@ -142,6 +142,11 @@ class Machine:
             # Re-arm for the next run; a stop is aimed at one run only.
             self._keep_running = True
 
+    def prepare(self) -> None:
+        # Called by whoever starts a run, before the run's thread exists: a
+        # stop aimed at an earlier run that arrived as it finished is forgotten.
+        self._keep_running = True
+
     def stop(self) -> None:
         self._keep_running = False
         self._clock.stop()
